@@ -111,6 +111,10 @@ def expected(name, shape):
     if shape == 'S':
         return zero(name)
     if shape == 'SI':
+        if name == 'T':
+            # a structure given fewer initialisers than it has fields: the
+            # rest must read as zero even on recycled (dirty) storage
+            return (sample('b', 0), 0, 0.0)
         return sample(name, 0)
     if shape == 'AI':
         return [sample(name, i + 1) for i in range(ARRLEN['AI'])]
@@ -126,6 +130,8 @@ def make(ctx, name, shape, wrap):
             args = sample(name, 0)
             if name != 'T':
                 args = (args,)
+            else:
+                args = args[:1]          # partial initialiser
         if wrap:
             return ctx.Value(t, *args)
         return ctx.RawValue(t, *args)
@@ -919,6 +925,92 @@ def _diff(got, exp):
     return '; '.join(out)[:600]
 
 
+def _alloc_child(conn):
+    try:
+        ctx = billiard.get_context('fork')
+        c = ctx.Value('q', 111)
+        conn.send(('made', c.value))
+        conn.recv()                      # parent has allocated and written
+        conn.send(('still', c.value))
+        c.value = 333
+        conn.send(('wrote', c.value))
+        conn.recv()
+    finally:
+        conn.close()
+
+
+def _real_alloc_after_fork(method):
+    """Storage handed out in a forked child and storage handed out in the
+    parent afterwards are different storage."""
+    ctx = billiard.get_context(method)
+    first = ctx.Value('q', 1)            # an arena with free space exists
+    pc, cc = ctx.Pipe()
+    p = ctx.Process(target=_alloc_child, args=(cc,))
+    p.daemon = True
+    p.start()
+    cc.close()
+    try:
+        tag, v = pc.recv()
+        if (tag, v) != ('made', 111):
+            return 'violation', 'child object reads %r' % ((tag, v),)
+        mine = ctx.Value('q', 222)
+        mine.value = 0x7777
+        pc.send('go')
+        tag, v = pc.recv()
+        if v != 111:
+            return 'violation', ('an object created in the parent after the '
+                                 'fork overwrote the object the child had '
+                                 'created (child reads %r)' % (v,))
+        pc.recv()
+        if mine.value != 0x7777 or first.value != 1:
+            return 'violation', ('the child\'s write to its own new object '
+                                 'changed the parent\'s objects: %r %r' % (
+                                     mine.value, first.value))
+        pc.send('bye')
+        p.join()
+        return 'ok', 'alloc-after-fork'
+    finally:
+        pc.close()
+        if p.is_alive():
+            p.terminate()
+            p.join()
+
+
+def _locked_child(v, conn):
+    try:
+        got = v.get_lock().acquire(False)
+        conn.send(('acquired', got))
+        if got:
+            v.get_lock().release()
+    finally:
+        conn.close()
+
+
+def _real_fork_while_locked(method):
+    """A child forked while the parent holds the object's lock does not
+    hold it."""
+    ctx = billiard.get_context(method)
+    out = []
+    for v in (ctx.Value('i', 0), ctx.Array('i', 3)):
+        pc, cc = ctx.Pipe()
+        v.get_lock().acquire()
+        try:
+            p = ctx.Process(target=_locked_child, args=(v, cc))
+            p.daemon = True
+            p.start()
+            cc.close()
+            tag, got = pc.recv()
+            p.join()
+        finally:
+            v.get_lock().release()
+            pc.close()
+        out.append(got)
+    if any(out):
+        return 'violation', ('a child forked while the parent held the '
+                             'lock acquired it as well: %r' % (out,))
+    return 'ok', 'fork-while-locked'
+
+
 def real_main():
     """Entry point of the plain interpreter: run the cells named in
     C15_REAL_ARGS, write a JSON result list."""
@@ -926,7 +1018,12 @@ def real_main():
     res = []
     for method, name in args['cells']:
         try:
-            status, detail = _real_case(method, name)
+            if name == '@alloc':
+                status, detail = _real_alloc_after_fork(method)
+            elif name == '@locked':
+                status, detail = _real_fork_while_locked(method)
+            else:
+                status, detail = _real_case(method, name)
         except Exception as exc:                    # noqa
             import traceback
             status, detail = 'error', traceback.format_exc()[-1500:]
@@ -948,6 +1045,9 @@ def real_cells(tier):
         for t in TYPES:
             if tier == 'thorough' or m == 'fork' or t in quick3:
                 cells.append((m, t))
+    if 'fork' in real_methods():
+        cells.append(('fork', '@alloc'))
+        cells.append(('fork', '@locked'))
     return cells
 
 
